@@ -829,6 +829,8 @@ static int conf_replace_value(struct conf_node_base *target_, struct conf_node_b
         } else {
             target->value = NULL;
             conf_parse_string_value(target);
+            if (orig_value && !target->value && target_->specified && target_->hook)
+                target_->hook(target_);
         }
         xfree(orig_value);
         break;
